@@ -184,9 +184,8 @@ class EventHandler(abc.ABC):
         The receiver will convert the data to string, flush any previous
         pending start element and send it to the handler for generation.
 
-        If the text content of the tag has already been generated then
-        treat the current data as element tail content and queue it to
-        be generated when the tag ends.
+        Consecutive data of the same element, e.g. the text chunks of a
+        mixed content list, are generated in the order they arrive.
 
         Args:
             data: The element text or tail content
@@ -195,10 +194,7 @@ class EventHandler(abc.ABC):
         self.flush_start(is_nil=value is None)
 
         if value:
-            if not self.in_tail:
-                self.set_characters(value)
-            else:
-                self.tail = value
+            self.set_characters(value)
 
         self.in_tail = True
 
